@@ -49,7 +49,7 @@ def run(pid: str, tier: str, replay: str | None = None) -> int:
     from dep_logic.tags import EnvSpec
     rep = Report(pid, tier, "model_checking")
     rng = random.Random(rep.seed)
-    states = run_grid(rep, ["TagsExact", "ScoreOrder", "NamesRoundTrip"], GRID)
+    states = run_grid(rep, ["TagsExact", "ScoreOrder", "NamesRoundTrip", "EnvironmentCoherent"], GRID)
     vectors = [s for s in states if s["phase"] == "tags"]
     evals = 0
     for v in vectors:
@@ -111,6 +111,25 @@ def run(pid: str, tier: str, replay: str | None = None) -> int:
                 rep.violation(f"C09:score({c['os']}):raises-{type(e).__name__}", repr(e), ctx)
         elif set(real) != set(algo) or real != algo:
             rep.count("algorithm_drift")
+        # beyond the listed properties: Platform.markers() vs its transcription (drift only, never an alarm)
+        try:
+            from dep_logic.tags.platform import Platform as _P
+            saved = _P.is_current
+            _P.is_current = lambda self: False
+            try:
+                mk = plat.markers()
+            finally:
+                _P.is_current = saved
+            exp = {"os_name": "nt" if c["os"] == "windows" else "posix",
+                   "sys_platform": "win32" if c["os"] == "windows" else "darwin" if c["os"] == "macos" else "linux",
+                   "platform_machine": "arm64" if c["os"] in ("windows", "macos") and c["arch"] == "aarch64" else "AMD64" if c["os"] == "windows" and c["arch"] == "x86_64" else c["arch"],
+                   "platform_system": "Darwin" if c["os"] == "macos" else "Windows" if c["os"] == "windows" else "Linux"}
+            if any(mk.get(k) != v for k, v in exp.items()):
+                rep.count("markers_transcription_drift")
+            else:
+                rep.count("markers_transcription_agrees")
+        except Exception:  # noqa: BLE001
+            rep.count("markers_transcription_drift")
         if len(rep.cov["samples"]) < 4 and rng.random() < 0.02:
             rep.sample({"config": c, "standard_list_head": want[:5], "len": len(want)})
     rep.set(traces_validated_against_impl=evals, evaluations=evals, distinct_nontrivial=len(vectors), exhaustive=True,
